@@ -9,8 +9,10 @@ Local Open Scope Z_scope.
 
 (* what open_fp did: it returned (the object graph read off the opened object, directories numbered in the order
    of their records on disc; the largest end of file data is not observable and not compared), or it raised at
-   raise point k of Parse.v (1..8, classified by exception type and message) *)
-Inductive hexpect := HOk (g : list (list erec) * list (Z * Z) * Z) | HInvalid (k : Z).
+   raise point k of Parse.v (1..8, classified by exception type and message), or -- seen by instrumenting the
+   running library, whatever it did afterwards -- the walk first left the modelled fragment: 1 = XARecord.parse
+   found an XA record or RockRidge.parse was called, 2 = the duplicate-name retry of a multi-extent file *)
+Inductive hexpect := HOk (g : list (list erec) * list (Z * Z) * Z) | HInvalid (k : Z) | HOutside (k : Z).
 
 (* a case: (extents of the L path table records, (root extent, root length) of the PVD,
             the WHOLE file run-length coded, what the library did) *)
@@ -27,6 +29,7 @@ Definition ps_hcase_ok (c : ps_hcase) : bool :=
   match parse_file (S (length bytes)) bytes ptr re rl, ex with
   | POk g, HOk e => ps_hgraph_eqb g e
   | PInvalid w, HInvalid k => w =? k
+  | PUnsupported w, HOutside k => w =? k
   | _, _ => false
   end.
 
